@@ -3,6 +3,7 @@ package main
 import (
 	"fmt"
 	"go/types"
+	"golang.org/x/tools/go/ssa"
 	"strings"
 )
 
@@ -478,4 +479,38 @@ func (e *Engine) pureContractAxioms(fn interface{ String() string }, c *Contract
 			}
 		}
 	}()
+}
+
+// globalAddr: package-level variables are heap objects at fixed, pairwise distinct addresses that
+// existed before the function under contract was entered. Err* variables of interface type hold
+// distinct non-nil sentinel values in the entry heap (assumption recorded).
+func (e *Engine) globalAddr(g *ssa.Global) Val {
+	name := "gaddr_" + mangle(g.Pkg.Pkg.Path()+"_"+g.Name())
+	if len(name) > 80 {
+		name = "gaddr_" + mangle(g.Pkg.Pkg.Name()+"_"+g.Name())
+	}
+	if !e.S.has(name) {
+		e.S.DeclareConst(name, "Int")
+		e.S.DeclareConst("alloc!0", "Int")
+		e.S.AddAxiom([]string{name}, fmt.Sprintf("(and (> %s 0) (<= %s alloc!0))", name, name))
+		for _, o := range e.globalAddrs {
+			e.S.AddAxiom([]string{name, o}, fmt.Sprintf("(not (= %s %s))", name, o))
+		}
+		e.globalAddrs = append(e.globalAddrs, name)
+		el := g.Type().(*types.Pointer).Elem()
+		if _, isIface := el.Underlying().(*types.Interface); isIface && strings.HasPrefix(g.Name(), "Err") {
+			e.noteAssumption("package-level Err* variables hold distinct non-nil error values on entry")
+			bn, bs := e.boxMapName(el)
+			init := bn + "!0"
+			e.S.DeclareConst(init, bs)
+			e.heapSorts[bn] = bs
+			v := fmt.Sprintf("(select %s %s)", init, name)
+			e.S.AddAxiom([]string{name, init}, fmt.Sprintf("(not (= %s (mk_iface 0 0)))", v))
+			for _, o := range e.errGlobals {
+				e.S.AddAxiom([]string{name, o, init}, fmt.Sprintf("(not (= %s (select %s %s)))", v, init, o))
+			}
+			e.errGlobals = append(e.errGlobals, name)
+		}
+	}
+	return term(name, g.Type())
 }
